@@ -1,5 +1,6 @@
 pub mod containers;
 pub mod disasm;
+pub mod types;
 pub mod value;
 
 pub fn generate(family: &str, seed: u64, n: usize, tier: &str, emit: &mut dyn FnMut(String)) {
@@ -8,6 +9,7 @@ pub fn generate(family: &str, seed: u64, n: usize, tier: &str, emit: &mut dyn Fn
         "ds" => containers::generate_ds(seed, n, tier, emit),
         "vmap" => containers::generate_vmap(seed, n, tier, emit),
         "word" => value::generate_word(seed, n, tier, emit),
+        "merge" => types::generate_merge(seed, n, tier, emit),
         "fold" => value::generate_fold(seed, n, tier, emit),
         _ => panic!("unknown family {family}"),
     }
@@ -19,6 +21,7 @@ pub fn eval(family: &str, payload: &str) -> String {
         "ds" => containers::eval_ds(payload),
         "vmap" => containers::eval_vmap(payload),
         "word" => value::eval_word(payload),
+        "merge" => types::eval_merge(payload),
         "fold" => value::eval_fold(payload),
         _ => format!("err unknown-family-{family}"),
     }
